@@ -109,6 +109,92 @@ def alias_check(rep: C.Report) -> None:
         ob.detail += f"{type(e).__name__}: {e}"
 
 
+COUNTER_MOD = "local p = {}\nlocal n = 0\ncount_global = (count_global or 0)\nfunction p.f(frame) n = n + 1; count_global = count_global + 1; return tostring(n) .. '/' .. tostring(count_global) end\nreturn p"
+
+
+def lua_stack_balance(rep: C.Report) -> None:
+    """Ob4 (E3): every returning path of call_lua_sandbox that pushed a frame pops the frame stack and the environment stack
+    exactly once - including the paths through the exception handlers.  A leftover environment makes later invocations on the
+    page skip the environment reset, i.e. module-level state of one invocation becomes visible to the next."""
+    ob = rep.add(C.Ob("Ob4 call_lua_sandbox pops the Lua frame and environment stacks on every returning path", "E3 AST path encoder + z3", [], "all syntactic paths incl. exception edges into the handlers"))
+    try:
+        tree = ast.parse(open(os.path.join(C.SRC, "luaexec.py")).read())
+        fns = [f for q, f in AP.functions(tree) if q[-1] == "call_lua_sandbox"]
+        if len(fns) != 1:
+            ob.verdict, ob.detail = C.NOT_ENCODABLE, "call_lua_sandbox not found"
+            return
+        fn = fns[0]
+        ob.functions.append(f"luaexec.py:call_lua_sandbox@{fn.lineno}")
+
+        def is_stack(n, name):
+            return isinstance(n, ast.Attribute) and n.attr == name
+
+        def delta(n):
+            if isinstance(n, ast.Call) and isinstance(n.func, ast.Attribute):
+                if n.func.attr == "append" and is_stack(n.func.value, "lua_frame_stack"):
+                    return {"fpush": 1}
+                if n.func.attr == "pop" and is_stack(n.func.value, "lua_frame_stack"):
+                    return {"fpop": 1}
+                if n.func.attr == "pop" and is_stack(n.func.value, "lua_env_stack"):
+                    return {"epop": 1}
+            return None
+
+        def branch(test, pol):
+            # `if len(stack) > 0: stack.pop()` - the false branch means the stack was already empty: counts as done
+            if isinstance(test, ast.Compare) and len(test.ops) == 1 and isinstance(test.ops[0], ast.Gt) and isinstance(test.comparators[0], ast.Constant) and test.comparators[0].value == 0 and isinstance(test.left, ast.Call) and isinstance(test.left.func, ast.Name) and test.left.func.id == "len" and test.left.args and not pol:
+                a0 = test.left.args[0]
+                if is_stack(a0, "lua_frame_stack"):
+                    return {"fpop": 1}
+                if is_stack(a0, "lua_env_stack"):
+                    return {"epop": 1}
+            return None
+
+        enc = AP.Encoder(fn, ["fpush", "fpop", "epop"], delta, branch=branch).run()
+        bad = []
+        for ex in enc.exits:
+            if ex.kind != "return" and ex.kind != "fallthrough":
+                continue
+            s = z3.Solver()
+            c = ex.counters
+            s.add(ex.guard, c["fpush"] >= 1, z3.Or(c["fpop"] != c["fpush"], c["epop"] != c["fpush"]))
+            r = str(s.check())
+            ob.queries += 1
+            ob.paths += 1
+            ob.conditions += 1
+            if r == "unsat":
+                ob.confirmed_conditions += 1
+            else:
+                bad.append((ex.kind, ex.line))
+        ob.samples.append({"query": "return reached after a frame push with frame pops != pushes or environment pops != pushes", "violating_exits": bad})
+        if not bad:
+            ob.verdict = C.DISCHARGED
+            return
+        # replay on the real sandbox: a failing invocation followed by a stateful module, same page
+        from vf.wtpfix import new_ctx, close
+
+        results = []
+        for first in ("{{#invoke:nosuchmodule|f}}", "{{#invoke:broken|f}}", "{{#invoke:err|f}}"):
+            w = new_ctx(modules={"cnt": COUNTER_MOD, "broken": "local p = {} function p.f( return p", "err": "local p = {}\nfunction p.f(frame) error('boom') end\nreturn p"})
+            w.start_page("T")
+            try:
+                w.expand(first)
+                got = [w.expand("{{#invoke:cnt|f}}") for _ in range(3)]
+            except Exception as e:  # noqa: BLE001
+                got = [f"EXC {type(e).__name__}"]
+            close(w)
+            results.append((first, got))
+        ob.samples.append({"replay": results})
+        hit = [(f, g) for f, g in results if g != ["1/1", "1/1", "1/1"]]
+        if hit:
+            f, g = hit[0]
+            v = rep.violation(f"one page: expand({f!r}) then three times expand('{{{{#invoke:cnt|f}}}}') (module with a counter)", f"counter values {g}: module-level state survives between invocations (a fresh environment gives 1/1 each time)", {"first": f})
+            ob.verdict = C.VIOLATED if v.known is None else C.KNOWN
+        else:
+            ob.detail = f"unbalanced exit(s) {bad} but the counter-module replay shows fresh state each time -> inconclusive"
+    except Exception as e:  # noqa: BLE001
+        ob.detail += f"{type(e).__name__}: {e}"
+
+
 def run(rep: C.Report) -> None:
     quick = C.tier() == "quick"
     rep.explanation = (
@@ -138,6 +224,7 @@ def run(rep: C.Report) -> None:
         twin_timeout=30,
     )
     alias_check(rep)
+    lua_stack_balance(rep)
 
 
 def replay(r: dict) -> int:
